@@ -55,7 +55,16 @@ def raised_by_harness(exc):
     if not tb:
         return False
     here = os.path.dirname(os.path.abspath(__file__))
-    return os.path.dirname(os.path.abspath(tb[-1].filename)) == here
+    # from the innermost frame outwards: the first frame that belongs either to the library or to the harness decides (an
+    # error raised by pandas / numpy / pydot on behalf of harness code is the harness' error, one raised on behalf of
+    # library code is the library's)
+    for fr in reversed(tb):
+        fn = os.path.abspath(fr.filename)
+        if os.sep + "sysloss" + os.sep in fn:
+            return False
+        if os.path.dirname(fn) == here:
+            return True
+    return False
 
 
 class GeneratorReject(Exception):
